@@ -161,6 +161,9 @@ let () =
                      width xb u; height yb u; overlapX xb u v; overlapY yb u v;
                      mx.rminX; mx.rmaxX; mx.rminY; mx.rmaxY; my.rminX; my.rmaxX; my.rminY; my.rmaxY] in
          print_string "M"; List.iter (fun q -> Printf.printf " %s" (str_of_q q)) vals; print_newline ()
+       end else if tag = "P" then begin
+         let seed = nint () in let k = nint () in
+         print_string "P"; List.iter (fun q -> Printf.printf " %s" (str_of_q q)) (stream (nat_of_int k) (z_of_int seed)); print_newline ()
        end else Printf.printf "? %s\n" line);
     flush stdout
   done with End_of_file -> ()
